@@ -42,6 +42,26 @@ def usable(title):
     return title not in ('', '.', '..') and '/' not in title and '\0' not in title
 
 
+def stub_save(self, name):
+    '''stands for MplPlot.save: module-level, so that it also works in the worker processes of write()'''
+    with open(name, 'wb') as fil:
+        fil.write(b'stub')
+
+
+# configurations of the writing: Rst(n_workers=...), how the target directory is given, author / version
+DEFAULT_CFG = {'n_workers': None, 'path': 'str', 'author': 'nobody', 'version': '0'}
+
+
+def gen_cfg(rng):
+    cfg = dict(DEFAULT_CFG)
+    r = rng.random()
+    cfg['n_workers'] = None if r < 0.5 else 1 if r < 0.6 else 2 if r < 0.75 else 3 if r < 0.8 else 8
+    cfg['path'] = rng.choice(['str', 'str', 'Path', 'existing', 'trailing-slash', 'nested-missing'])
+    cfg['author'] = rng.choice(['nobody', 'Jean Valjean', "l'auteur {x}", 'é"'])
+    cfg['version'] = rng.choice(['0', '1.2.3', '{v}'])
+    return cfg
+
+
 # --------------------------------------------------------------------------
 # the pool of results
 
@@ -55,8 +75,9 @@ class Pool:
         from valjean.javert.rst import Rst
         import valjean.javert.representation as rpr
         from valjean.javert import mpl
-        # plots are stubbed: matplotlib's own writing is outside the property
-        mpl.MplPlot.save = lambda self, name: open(name, 'wb').write(b'stub')
+        # only the drawing is stubbed (matplotlib is outside the property): which plots are saved, where and
+        # through which branch (sequential / multiprocessing pool) is decided by the code's own write()
+        mpl.MplPlot.save = stub_save
         self.results, self.fps, self.images, self.plot_fps = [], [], [], []
         self.rpr = rpr
         self.Rst = Rst
@@ -89,8 +110,8 @@ class Pool:
                 text = text.replace(fp, ident)
         return text
 
-    def new_rst(self):
-        return self.Rst(self.rpr.Representation(self.rpr.FullRepresenter()))
+    def new_rst(self, n_workers=None):
+        return self.Rst(self.rpr.Representation(self.rpr.FullRepresenter()), n_workers=n_workers)
 
 
 # --------------------------------------------------------------------------
@@ -234,7 +255,25 @@ def gen_cases(ctx, pool):
             flaw = 'variant-index'
         cases.append(gen_tree(rng, rng.choice([1, 2, 3, 4, 4, 4]), flaw, pool))
     ctx.count('random', nrand)
-    return cases
+    ncorpus = len(cases) - nrand
+    out = [{'tree': tree, 'cfg': dict(DEFAULT_CFG)} for tree in cases[:ncorpus]]
+    # configurations x number of plots: 0 / 1 / fewer than, as many as, more than the workers
+    def flat(results):
+        return ['M', list(results), [['A', [], []]]]
+    with_plot = [i for i in range(NPOOL) if pool.plot_fps[i]]
+    without = [i for i in range(NPOOL) if not pool.plot_fps[i]]
+    for nw in (None, 1, 2, 3, 8):
+        for nplots in (0, 1, 2, 3, len(with_plot)):
+            tree = flat(with_plot[:nplots] + without[:1])
+            if nplots == 2:      # the plots may also sit in sub-sections
+                tree = ['M', [], [['A', [with_plot[0]], [['B', [with_plot[1], without[0]], []]]]]]
+            out.append({'tree': tree, 'cfg': dict(DEFAULT_CFG, n_workers=nw)})
+    for kind in ('Path', 'existing', 'trailing-slash', 'nested-missing'):
+        out.append({'tree': flat(with_plot[:2]), 'cfg': dict(DEFAULT_CFG, path=kind, n_workers=8)})
+        out.append({'tree': ['M', [0], [['a/b', [], []]]], 'cfg': dict(DEFAULT_CFG, path=kind)})
+    ctx.count('corpus_configurations', len(out) - ncorpus)
+    out += [{'tree': tree, 'cfg': gen_cfg(rng)} for tree in cases[ncorpus:]]
+    return out
 
 
 # --------------------------------------------------------------------------
@@ -278,15 +317,28 @@ def parse_page(text, pool):
     return anchors, toc, images, lines[0], descr
 
 
-def run_case(tree, wdir, pool, TestReport):
+def run_case(tree, wdir, pool, TestReport, cfg=None):
+    from pathlib import Path
+    cfg = cfg or DEFAULT_CFG
     shutil.rmtree(wdir, ignore_errors=True)
     os.makedirs(wdir)
     rep_dir = os.path.join(wdir, 'rep')
+    target = rep_dir
+    if cfg['path'] == 'Path':
+        target = Path(rep_dir)
+    elif cfg['path'] == 'existing':
+        os.makedirs(rep_dir)
+    elif cfg['path'] == 'trailing-slash':
+        target = rep_dir + '/'
+    elif cfg['path'] == 'nested-missing':
+        rep_dir = os.path.join(wdir, 'not', 'yet', 'rep')
+        target = rep_dir
     obs = {'raised': None}
     try:
         report = build_report(TestReport, pool, tree)
-        fmt = pool.new_rst().format_report(report=report, author='nobody', version='0')
-        fmt.write(rep_dir)
+        fmt = pool.new_rst(cfg['n_workers']).format_report(report=report, author=cfg['author'],
+                                                           version=cfg['version'])
+        fmt.write(target)
     except Exception as exc:     # noqa
         obs['raised'] = type(exc).__name__
     files, pages, figs, others = [], {}, [], []
@@ -336,9 +388,12 @@ def unwritable_reason(tree, pool):
     return None
 
 
-def oracle(ctx, tree, obs, pool):
+def oracle(ctx, tree, obs, pool, cfg=None):
+    cfg = cfg or DEFAULT_CFG
+
     def fail(what, key):
-        ctx.oracle_failure(f'{what} :: {json.dumps(tree)[:400]}', tree, key=key)
+        ctx.oracle_failure(f'{what} :: {json.dumps(cfg)} {json.dumps(tree)[:400]}', {'tree': tree, 'cfg': cfg},
+                           key=key)
 
     reason = unwritable_reason(tree, pool)
     if obs['raised']:
@@ -448,37 +503,49 @@ def run(ctx):
                 'from index only by whitespace, trailing dots or unicode form 12% / 5% (valid: two pages)), results '
                 'i, i+4, i+8 of the pool share their test name, results from a pool of 12 real TestEqual/TestStudent '
                 'results with distinct fingerprints, 8 of them with a plot; non-trivial = written with >= 3 pages '
-                'or rejected; distinct by tree')
+                'or rejected; every tree is written under a configuration: Rst(n_workers) None 50% / 1 / 2 / 3 / 8 (the '
+                'multiprocessing branch of write(), with 0, 1, fewer, as many, more plots than workers), target given as '
+                'str / Path / existing directory / with trailing slash / below missing parents, author and version '
+                'strings; distinct by (tree, configuration)')
     cases = gen_cases(ctx, pool)
     wdir = os.path.join(ctx.wd(), 'c20')
     done = []
-    for tree in cases:
-        obs = run_case(tree, wdir, pool, TestReport)
-        oracle(ctx, tree, obs, pool)
-        ctx.case_seen(tree, bool(obs['raised']) or len(obs['pages']) >= 3, sample_every=131)
+    for case in cases:
+        tree, cfg = case['tree'], case['cfg']
+        obs = run_case(tree, wdir, pool, TestReport, cfg)
+        oracle(ctx, tree, obs, pool, cfg)
+        ctx.case_seen(case, bool(obs['raised']) or len(obs['pages']) >= 3, sample_every=131)
+        ctx.count(f'n_workers_{cfg["n_workers"]}')
+        ctx.count(f'path_{cfg["path"]}')
+        if not obs['raised'] and cfg['n_workers']:
+            nfig = len(obs['figs'])
+            ctx.count('pool_' + ('no_plot' if nfig == 0 else 'fewer_plots_than_workers' if nfig < cfg['n_workers']
+                                 else 'as_many_plots_as_workers' if nfig == cfg['n_workers']
+                                 else 'more_plots_than_workers'))
         ctx.count('rejected_' + obs['raised'] if obs['raised'] else 'written')
         ctx.count(f'levels_{depth_of(tree)}')
         if not obs['raised']:
             ctx.count('pages_written', len(obs['pages']))
             ctx.count('figures_written', len(obs['figs']))
-        done.append((tree, obs))
+        done.append((tree, obs, cfg))
     shutil.rmtree(wdir, ignore_errors=True)
     shard_size = 80
     shards = []
     for k in range(0, len(done), shard_size):
-        items = ['(' + coq_tree(tree, pool) + ',\n  ' + coq_obs(obs) + ')' for tree, obs in done[k:k + shard_size]]
+        items = ['(' + coq_tree(tree, pool) + ',\n  ' + coq_obs(obs) + ')' for tree, obs, _cfg in done[k:k + shard_size]]
         shards.append('Definition cases : list (report * obs) :=\n [' + ';\n '.join(items)
                       + '].\nEval vm_compute in bad_indices (map check_case cases).')
     outs = common.coq_eval(ctx.pid, IMPORTS, shards)
     for k, out in enumerate(outs):
         for i in common.parse_nat_list(out):
-            tree, obs = done[k * shard_size + i]
-            ctx.mismatch('implementation: ' + json.dumps({'raised': obs['raised'], 'files': obs['files'],
+            tree, obs, cfg = done[k * shard_size + i]
+            ctx.mismatch('implementation: ' + json.dumps({'cfg': cfg, 'raised': obs['raised'], 'files': obs['files'],
                                                           'pages': obs['pages']})[:600],
-                         {'case': tree, 'observed': {'raised': obs['raised'], 'files': obs['files'],
+                         {'tree': tree, 'cfg': cfg, 'observed': {'raised': obs['raised'], 'files': obs['files'],
                                                      'pages': obs['pages'], 'figs': obs['figs']}})
     ctx.extra['model_cases_compared'] = len(done)
-    ctx.assumptions = ['plots are stubbed (MplPlot.save writes a small file): matplotlib is outside the property',
+    ctx.assumptions = ['only the drawing is stubbed (MplPlot.save -> a small file, also in the worker processes); which '
+                       'plots are saved and through which branch is the code\'s own write()',
                        'toctree entries are read literally (Sphinx: relative to the directory of the page); '
                        "Sphinx' own treatment of entries (whitespace stripping, 'title <target>', 'self', "
                        'suffix stripping) is outside the model',
@@ -488,12 +555,19 @@ def run(ctx):
 def replay(ctx, path):
     pool, TestReport = load()
     data = json.load(open(path))
-    tree = data['case']['case'] if isinstance(data['case'], dict) else data['case']
+    case = data['case']
+    cfg = dict(DEFAULT_CFG)
+    if isinstance(case, dict):
+        cfg.update(case.get('cfg') or {})
+        tree = case.get('tree', case.get('case'))
+    else:
+        tree = case
     wdir = os.path.join(ctx.wd(), 'c20')
-    obs = run_case(tree, wdir, pool, TestReport)
+    obs = run_case(tree, wdir, pool, TestReport, cfg)
+    print('cfg:', json.dumps(cfg))
     print('tree:', json.dumps(tree))
     print('impl:', json.dumps({k: obs[k] for k in ('raised', 'files', 'pages', 'figs', 'others')}))
-    oracle(ctx, tree, obs, pool)
+    oracle(ctx, tree, obs, pool, cfg)
     for v in ctx.violations:
         print('oracle:', v[1][:600])
     body = ('Definition c := (' + coq_tree(tree, pool) + ', ' + coq_obs(obs) + ').\n'
